@@ -8,7 +8,9 @@ observed for ONE request (`Resp`), given what the innermost handler did (`Inner`
     and an error body: the configured page if one is configured for the status, otherwise the
     default text (or the debug text under `errors visible` when an error value came with it);
   * handler wrote a response ⇒ exactly one commit, its status, its body and nothing else
-    (the body may be gzip-coded as a whole: "configured encoding change");
+    (the body may be gzip-coded as a whole: "configured encoding change"; a template body arrives
+    rendered when `templates` applies, and a template that fails is a 500 error response);
+  * well-formed: a Content-Length committed with the header describes exactly the body sent;
   * handler panicked before writing ⇒ exactly one commit, 500, an error body;
   * handler panicked after it started writing ⇒ the status it wrote and its bytes come first
     (a further commit attempt is tolerated here, and only here) — unless a buffering wrapper
@@ -36,8 +38,6 @@ def errorBodyOK (m : Option ErrMode) (s : Nat) (withErr : Bool) (c : Chunk) : Bo
 def panicBodyOK (m : Option ErrMode) (c : Chunk) : Bool :=
   if m = some .visible then c == .debugPanic else c == .errText 500
 
-def statusOf (s : Option Nat) : Nat := s.getD 200
-
 def oneChunk (p : Chunk → Bool) : List Chunk → Bool
   | [c] => p c
   | _ => false
@@ -46,13 +46,27 @@ def firstChunkIs (c : Chunk) : List Chunk → Bool
   | x :: _ => x == c
   | [] => false
 
-/-- the property for one request -/
-def good (m : Option ErrMode) (i : Inner) (r : Resp) : Bool :=
+/-- what a written response must look like at the client.  `tpl`: the request is rendered by
+`templates` (directive present and template extension).  Rendering is the one configured content
+change: a body that is a template arrives rendered; a template that does not parse or fails while
+executing makes `templates` report 500 without writing, which must then be a proper error response. -/
+def writtenOK (tpl : Bool) (m : Option ErrMode) (s : Option Nat) (b : Bytes) (e : Bool) (k : BodyKind)
+    (r : Resp) : Bool :=
+  if tpl && !e then
+    match k with
+    | .plain => r.status == statusOf s && chunks r == [.inner b]
+    | .tplOK => r.status == statusOf s && chunks r == [.rendered b]
+    | .tplParse => r.status == 500 && oneChunk (errorBodyOK m 500 true) (chunks r)
+    | .tplExec => r.status == 500 && oneChunk (errorBodyOK m 500 true) (chunks r)
+  else r.status == statusOf s && chunks r == [.inner b]
+
+/-- the property for one request (without the well-formedness of Content-Length) -/
+def goodCore (tpl : Bool) (m : Option ErrMode) (i : Inner) (r : Resp) : Bool :=
   match i with
   | .ret s e =>
     if s ≥ 400 then r.commits == 1 && r.status == s && oneChunk (errorBodyOK m s e) (chunks r)
     else decide (r.commits ≤ 1) && (r.status == 0 || r.status == 200) && (chunks r).isEmpty
-  | .write s b _ => r.commits == 1 && r.status == statusOf s && chunks r == [.inner b]
+  | .write s b e k _ => r.commits == 1 && writtenOK tpl m s b e k r
   | .panicBefore => r.commits == 1 && r.status == 500 && oneChunk (panicBodyOK m) (chunks r)
   | .panicAfter s b =>
     -- either the bytes had reached the client (status and bytes first; a further commit attempt
@@ -61,8 +75,13 @@ def good (m : Option ErrMode) (i : Inner) (r : Resp) : Bool :=
     (r.commits == 1 && r.status == 500 && oneChunk (panicBodyOK m) (chunks r)) ||
     (r.commits != 0 && r.status == statusOf s && firstChunkIs (.inner b) (chunks r))
 
+/-- … and the response is well formed: a declared Content-Length describes exactly the body sent -/
+def good (tpl : Bool) (m : Option ErrMode) (i : Inner) (r : Resp) : Bool := goodCore tpl m i r && clOK r
+
 /-- which clause failed (only consulted when `good` is false) -/
 def diagnose (i : Inner) (r : Resp) : String :=
+  if !clOK r then "bad:content-length:the declared Content-Length does not describe the body sent"
+  else
   match i with
   | .ret s _ =>
     if s ≥ 400 then
@@ -73,10 +92,9 @@ def diagnose (i : Inner) (r : Resp) : String :=
       if r.commits > 1 then "bad:commits:more than one header commit"
       else if !(chunks r).isEmpty then "bad:body:body invented"
       else "bad:status:status invented"
-  | .write s _ _ =>
+  | .write _ _ _ _ _ =>
     if r.commits != 1 then "bad:commits:written response not committed exactly once"
-    else if r.status != statusOf s then "bad:status:written status altered"
-    else "bad:body:written body altered"
+    else "bad:body:written status or body altered (beyond rendering by templates)"
   | .panicBefore =>
     if r.commits != 1 then "bad:commits:panic response not committed exactly once"
     else if r.status != 500 then "bad:status:panic before writing did not give 500"
@@ -86,14 +104,14 @@ def diagnose (i : Inner) (r : Resp) : String :=
     else if r.status != statusOf s then "bad:status:written status altered"
     else "bad:body:written bytes do not come first"
 
-def verdict (m : Option ErrMode) (i : Inner) (r : Resp) : String :=
-  if good m i r then "ok" else diagnose i r
+def verdict (tpl : Bool) (m : Option ErrMode) (i : Inner) (r : Resp) : String :=
+  if good tpl m i r then "ok" else diagnose i r
 
 /-- handlers the property quantifies over: an error value without a status (0, err) is only
 returned by a handler that has written; a non-error status comes without an error value -/
 def Inner.ok : Inner → Bool
   | .ret s e => s ≥ 400 || (!e && (s = 0 || s ≥ 100))
-  | .write s _ _ => match s with
+  | .write s _ _ _ _ => match s with
     | some c => c ≥ 100
     | none => true
   | .panicBefore => true
